@@ -293,4 +293,57 @@ theorem entries_run (fs : Bytes → Option Bytes) (inc : Asm.Inc) (main : Bytes)
       simp only
       exact hrec
 
+/-- **`Asm.run` on the text of a listing whose labels are defined before use.** `es` is a gap-free segmentation of the
+non-empty file `b` into canonically encoded instructions (`EntryOk`), `br` the set of addresses that get a label
+line; every label an instruction line mentions names an entry at or before that line, and that entry has a label
+line. Then the whole pipeline — tokenizer, parser, `.addr`, the label definitions, every instruction statement
+with the real evaluator over the real constant table, front end, encoder, output region, task loops,
+`close_segment`, `finalize` — on the listing text succeeds, records no diagnostic, and its image is exactly `b` at
+`BASE`. -/
+theorem listing_run (fs : Bytes → Option Bytes) (main : Bytes) (b : List UInt8) (br : List Nat) (es : List Entry)
+    (hne : b ≠ []) (hsmall : BASE + b.length ≤ 4294967296) (hc : Chain es BASE (BASE + b.length))
+    (hok : ∀ e ∈ es, EntryOk b e)
+    (hback : ∀ e ∈ es, ∀ t, targetOf e.instr e.addr = some t →
+      t ≤ e.addr ∧ br.contains t = true ∧ ∃ e' ∈ es, e'.addr = t)
+    (hfs : fs main = some (listingText (Line.header :: render br es false BASE))) :
+    Asm.run fs main = .done ⟨true, none, true, [], [(BASE, b)]⟩ := by
+  have hlit : ∀ e ∈ es, LitOk e.instr := by
+    intro e he
+    obtain ⟨hws, h1, wf, _, _⟩ := hok e he
+    exact litOk_of_encode e.instr hws h1 wf
+  have hlines : LinesOk (Line.header :: render br es false BASE) := by
+    intro a i hm
+    rcases List.mem_cons.mp hm with h | h
+    · cases h
+    · exact linesOk_render br es false BASE hlit a i h
+  obtain ⟨els, hparse, hels⟩ := parseFile_listing _ hlines
+  have hv : (Line.header :: render br es false BASE).flatMap lineVals =
+      ElemVal.directive (bytesOf "addr") (Args.ofList [.const 0x20000000]) :: entryVals br es := by
+    rw [List.flatMap_cons, lineVals_render]; rfl
+  rw [hv] at hels
+  obtain ⟨e0, els', rfl, h0, hels'⟩ := List.map_eq_cons_iff.mp hels
+  obtain ⟨l0, c0, v0⟩ := e0
+  simp only at h0
+  subst h0
+  obtain ⟨tbl', pending', hrun⟩ := entries_run fs (Asm.assembleFile fs Asm.encoder (Asm.maxDepth - 1)) main b br hsmall es els'
+    BASE (BASE + b.length) [] [] hels' hc (Nat.le_refl _) (Nat.le_refl _) hok
+    (by intro name v h; simp [Asm.Table.find] at h)
+    (by
+      intro e he t ht
+      obtain ⟨g1, g2, e', he', hea⟩ := hback e he t ht
+      have := chain_ge' es _ _ hc e' he'
+      exact ⟨fun hlt => by omega, fun _ => ⟨g1, g2, e', he', hea⟩⟩)
+  have haddr := Asm.addr_ok fs (Asm.assembleFile fs Asm.encoder (Asm.maxDepth - 1)) ⟨[main], main⟩
+    ⟨Seg.init, [], some [], [], some [], []⟩ [] (by simp) rfl rfl l0 c0 (0x20000000 : Int) (by decide) (by decide)
+  have key : Asm.doAssemble fs Asm.encoder (Asm.assembleFile fs Asm.encoder (Asm.maxDepth - 1)) ⟨[main], main⟩
+      (⟨l0, c0, .directive (bytesOf "addr") (Args.ofList [.const 0x20000000])⟩ :: els') none
+      ⟨Seg.init, [], some [], [], some [], []⟩ =
+      .ok (⟨⟨[], some ⟨BASE, b, Map.u32Max - BASE + 1⟩, pending'⟩, [], some tbl', [], some [], []⟩, .ok) := by
+    simp only [Asm.doAssemble, Asm.statement, toList_ofList, haddr]
+    have e1 : b.take (BASE - BASE) = [] := by simp
+    have e2 : b.take (BASE + b.length - BASE) = b := by simp
+    rw [e1, e2] at hrun
+    exact hrun
+  exact Asm.run_of_statements fs main _ hfs _ hparse tbl' ⟨BASE, b, Map.u32Max - BASE + 1⟩ pending' key hne hsmall
+
 end Trion.Tridas
